@@ -227,9 +227,10 @@ def _own_signal_identified(path, index, handler, fn) -> bool:
         if event.kind == 'test' and event.get('key') is not None and \
                 event['key'][0] == 'is' and handler.name in event['key'][1:]:
             other = event['key'][2] if event['key'][1] == handler.name else event['key'][1]
-            values = rules.local_values(fn, other)
-            created = len(values) == 1 and isinstance(values[0], ast.Call) and \
-                ast.unparse(values[0].func) in ('Interrupt', 'CoreInterrupt')
+            position = rules.event_index(path, event)
+            value = rules.value_expr(path, position, ast.Name(id=other, ctx=ast.Load()))
+            created = isinstance(value, ast.Call) and \
+                ast.unparse(value.func) in ('Interrupt', 'CoreInterrupt')
             if created and key_truth(event) is True:
                 return True
     return False
@@ -296,37 +297,79 @@ def _check_signal_lifecycles(check, an: Analysis, wrapper, rule: str = 'P', only
                            'wrapper revokes all registered cancellations (%s, %s)' % (
                                ok_reg, revoked, body_ok), analysed=len(paths))
             continue
-        # local wake-up: scheduled/subscribed, then revoked/unsubscribed on every exit
-        verdict, bad, n = True, None, 0
-        for path in paths:
-            armed = None
-            for index, event in enumerate(path.events):
-                if event.kind == 'call' and isinstance(event.node, ast.Call) and \
-                        event.get('exit') == 'normal' and _passes_name(event.node, name) and \
-                        (is_call_to(event, 'schedule') or is_call_to(event, '__subscribe__')
-                         or (isinstance(event.node.func, ast.Attribute)
-                             and event.node.func.attr == '__subscribe__')):
-                    armed = index
-                    n += 1
-                elif armed is not None and event.kind == 'call' and \
-                        isinstance(event.node, ast.Call) and (
-                        rules.value_text(path, rules.event_index(path, event), event.node.func,
-                                         keep=(name,)) == '%s.revoke' % name or (
-                            isinstance(event.node.func, ast.Attribute)
-                            and event.node.func.attr == '__unsubscribe__'
-                            and _passes_name(event.node, name))):
-                    armed = None
-            if armed is not None:
-                verdict = False
-                bad = bad or (path, armed)
-        check.instance(rule, construct, verdict and n > 0, where,
-                       'local signal `%s` is disarmed on every exit after it was armed '
-                       '(%d armings on %d paths)' % (name, n, len(paths)),
-                       path=rules.path_lines(*bad) if bad else None, analysed=len(paths))
+        # local wake-up: scheduled/subscribed, then revoked/unsubscribed on every exit --
+        # decided where the signal lives: in this function, or in its callers when the
+        # function hands the armed signal on (a helper that returns it)
+        roots = _signal_roots(an, fn, node)
+        for root in roots:
+            verdict, bad, n, n_paths = True, None, 0, 0
+            root_owner = an.p.enclosing_self_class(root)
+            for path in an.paths(Callee(root, root_owner.qn if root_owner else None)):
+                n_paths += 1
+                armed = None
+                for index, event in enumerate(path.events):
+                    if event.kind != 'call' or not isinstance(event.node, ast.Call):
+                        continue
+                    call = event.node
+                    operands = list(call.args) + [kw.value for kw in call.keywords]
+                    if event.get('exit') == 'normal' and (
+                            is_call_to(event, 'schedule') or is_call_to(event, '__subscribe__')
+                            or (isinstance(call.func, ast.Attribute)
+                                and call.func.attr == '__subscribe__')) and \
+                            any(_is_node(rules.value_expr(path, index, a), node)
+                                for a in operands):
+                        armed = index
+                        n += 1
+                    elif armed is not None and isinstance(call.func, ast.Attribute) and (
+                            (call.func.attr == 'revoke' and _is_node(
+                                rules.value_expr(path, index, call.func.value), node))
+                            or (call.func.attr == '__unsubscribe__' and any(
+                                _is_node(rules.value_expr(path, index, a), node)
+                                for a in operands))):
+                        armed = None
+                if armed is not None:
+                    verdict = False
+                    bad = bad or (path, armed)
+            check.instance(rule, construct if root is fn else '%s@%s' % (
+                               construct, short(root.qn)), verdict and n > 0, where,
+                           'local signal `%s` is disarmed on every exit after it was armed '
+                           '(%d armings on %d paths of %s)' % (
+                               name, n, n_paths, short(root.qn)),
+                           path=rules.path_lines(*bad) if bad else None, analysed=n_paths)
     if only is None:
         check.floor(rule, 6, 'signal creation sites')
     else:
         check.floor(rule, 1, 'signal creation sites')
+
+
+def _is_node(tree, node) -> bool:
+    """``tree`` (an expanded copy) is the expression ``node`` of the source"""
+    return type(tree) is type(node) and \
+        getattr(tree, 'lineno', None) == node.lineno and \
+        getattr(tree, 'col_offset', None) == node.col_offset and \
+        getattr(tree, 'end_col_offset', None) == node.end_col_offset and \
+        getattr(tree, 'end_lineno', None) == node.end_lineno and \
+        ast.dump(tree.func) == ast.dump(node.func)
+
+
+def _signal_roots(an: Analysis, fn, node, depth: int = 3):
+    """the functions in which the signal created by ``node`` lives on: ``fn`` itself, or
+    the callers of a helper that returns the signal (possibly inside a tuple)"""
+    owner = an.p.enclosing_self_class(fn)
+    hands_on = False
+    for path in an.paths(Callee(fn, owner.qn if owner else None)):
+        if path.kind == 'return' and path.outcome[1] is not None:
+            value = rules.value_expr(path, len(path.events), path.outcome[1])
+            if any(_is_node(sub, node) for sub in ast.walk(value)):
+                hands_on = True
+    if not hands_on or depth <= 0:
+        return [fn]
+    roots = []
+    for caller, _call, _frame in rules.call_sites_of(an, fn.qn):
+        # the caller sees the creation through the helper's events on its own paths
+        if caller not in roots:
+            roots.append(caller)
+    return roots or [fn]
 
 
 def _assigned_to(fn, call):
